@@ -59,6 +59,10 @@ func boundaryInstants() []instant {
 			}
 		}
 	}
+	// leap-class year lattice x month/day lattice at 12:34:56.789 (see isoyears.go)
+	for _, t := range latticeInstants() {
+		add(numInstant(t))
+	}
 	for _, src := range []string{"undefined", "null", "true", "false"} {
 		a := arg(src)
 		add(instant{key: "v=" + src, src: src, arg: a.Val, num: a.Num})
